@@ -870,6 +870,66 @@ val annotate : path -> ptr -> feature -> pfeature
 
 val annotate_fm : fm -> pfm
 
+type hrel = { hr_owner : nat; hr_min : z; hr_max : z; hr_children : nat list }
+
+type hfeat = { hf_name : char list; hf_parent : nat option;
+               hf_rels : hrel list }
+
+type heap = hfeat list
+
+type hop =
+| HNew of char list * nat option
+| HAddRel of nat * nat * z * z * nat list
+| HDelRel of nat * nat
+| HAddChild of nat * nat * nat
+| HSetParent of nat * nat option
+
+val update_nth : nat -> ('a1 -> 'a1) -> 'a1 list -> 'a1 list
+
+val remove_nth : nat -> 'a1 list -> 'a1 list
+
+val set_parent : nat option -> hfeat -> hfeat
+
+val set_rels : (hrel list -> hrel list) -> hfeat -> hfeat
+
+val add_child_rel : nat -> hrel -> hrel
+
+val step : heap -> hop -> heap
+
+val run : heap -> hop list -> heap
+
+val h_name : heap -> nat -> char list
+
+val h_parent : heap -> nat -> nat option
+
+val h_rels : heap -> nat -> hrel list
+
+val h_children : heap -> nat -> nat list
+
+val h_is_root : heap -> nat -> bool
+
+val h_is_leaf : heap -> nat -> bool
+
+val hrel_is_mandatory : hrel -> bool
+
+val hrel_is_optional : hrel -> bool
+
+val named_in : heap -> nat -> hrel -> bool
+
+val h_is_kind : (hrel -> bool) -> heap -> nat -> bool
+
+val h_is_mandatory : heap -> nat -> bool
+
+val h_is_optional : heap -> nat -> bool
+
+val occurs : heap -> nat -> bool
+
+val nodupb_nat : nat list -> bool
+
+val guard : heap -> hop -> bool
+
+val guards : heap -> hop list -> bool
+
 val jt_FEATURE : char list
 
 val jt_XOR : char list
@@ -1627,6 +1687,14 @@ val d_actc : sexp -> actc option
 val e_adoc : adoc -> sexp
 
 val d_adoc : sexp -> adoc option
+
+val d_optnat : sexp -> nat option option
+
+val d_hop : sexp -> hop option
+
+val e_hrel : hrel -> sexp
+
+val e_heap : heap -> sexp
 
 val e_names : feature list -> sexp
 
